@@ -8,6 +8,7 @@ from props import lexcommon
 
 LEVEL_NOTE = [
     "part (a) tokenizer: theorem C05.lex_total about Model/Lexer.lean, tied by the `lex` correspondence (exception status) and the regenerated operator table / parser order / pattern texts (C05.operator_keys, parsers_order, patterns_unchanged)",
+    "part (b) rule level: C05.checkSpacing_terminates — the loop of the completely ported CheckSpacing ends by its own condition on every token list",
     "part (b) pipeline: the engine loop terminates for every rule table once each rule call returns (Registry.run raises on a zero jump; see DESIGN §4.5); totality of the individual rules is NOT proved — it is searched: token prefixes and bounded token edits of conforming / violating programs and of the repository samples, each run under a watchdog, failures keyed by signature",
     "A8 CPython recursion limit: inputs nested deeper than ~1000 levels are outside the generated families",
 ]
